@@ -1,7 +1,7 @@
-(* C03 — the binary64 instance of the percent operations of Model.v and the executable
+(* C03 — the binary64 and binary32 instances of the percent operations of Model.v and the executable
    entry point `run` used by the correspondence check.  No proofs here; the theorems
    (Proofs.v / Property.v) do not depend on this file. *)
-From Coq Require Import ZArith List Bool Floats Uint63.
+From Coq Require Import ZArith List Bool Floats Uint63 SpecFloat.
 Import ListNotations.
 From KD Require Import C03.Model.
 Open Scope Z_scope.
@@ -35,9 +35,32 @@ Definition pct_ok (p : float) : bool := PrimFloat.leb 0%float p && PrimFloat.leb
 Definition float_ops : pct_ops float :=
   {| p_zero := 0%float; p_one := 1%float; p_ok := pct_ok; p_leb := PrimFloat.leb; p_cut := fcut |}.
 
+(* ---------------- binary32 percent -> index (ClasswiseSubsetWrapper) ---------------- *)
+(* int(start_percent * counts[i]) with counts[i] a 0-dim int64 tensor: torch promotes to its default
+   dtype, i.e. both factors are rounded to binary32 and multiplied in binary32 (round to nearest even).
+   SpecFloat's operations are parametric in the format: prec = 24, emax = 128. *)
+Definition sf_one : spec_float := S754_finite false 1 0.
+Definition to_f32 (x : spec_float) : spec_float := SFmul 24 128 x sf_one.    (* rounding to binary32 *)
+Definition sf_of_Z (n : Z) : spec_float :=
+  match n with Z0 => S754_zero false | Zpos p => S754_finite false p 0 | Zneg p => S754_finite true p 0 end.
+Definition sf_trunc (x : spec_float) : Z :=
+  match x with
+  | S754_finite s m e => let v := if 0 <=? e then Zpos m * 2 ^ e else Zpos m / 2 ^ (- e) in if s then - v else v
+  | _ => 0
+  end.
+Definition fcut32 (ceil : bool) (p : float) (n : Z) : Z :=          (* the wrapper never ceils *)
+  sf_trunc (SFmul 24 128 (to_f32 (Prim2SF p)) (to_f32 (sf_of_Z n))).
+
+Definition float32_ops : pct_ops float :=
+  {| p_zero := 0%float; p_one := 1%float; p_ok := pct_ok; p_leb := PrimFloat.leb; p_cut := fcut32 |}.
+
 Definition percent_filter := percent_filter_g float_ops.
 Definition subset_percent := subset_percent_g float_ops.
-Definition classwise_percent := classwise_percent_g float_ops.
+Definition classwise_percent := classwise_percent_g float32_ops.
 
 Definition wcase : Type := wcase_g float.
-Definition run : list Z -> Z -> wcase -> option (list Z) := run_g float_ops.
+Definition run (classes : list Z) (C : Z) (w : wcase) : option (list Z) :=
+  match w with
+  | WClasswisePercent s e => classwise_percent classes C s e
+  | _ => run_g float_ops classes C w
+  end.
